@@ -1,14 +1,16 @@
 """C16 - linear interpolation reproduces knots and honours the out-of-range mode (DESIGN 4/C16)."""
 LEVEL = "model_checking"
-RULE = ("P1: for every strictly increasing integer knot vector with 2..N knots over 0..XMax (quick N=3, XMax=4; thorough N=5, "
-        "XMax=6), two ordinate patterns, every target on the half-integer grid from below the first to above the last knot "
-        "plus thirds, and all three modes, TLC checks ICode (scan capped at n-1, separate right test, dispatch, convex "
-        "combination) = ISpec (knot exactness, bracketing segment, per-side out-of-range handling), plus Inv_Knot and "
-        "Inv_Between; families 'wide' (neighbouring gaps 1, 2^10, 2^20) and 'many' (50 and 200 knots) likewise. "
-        "P2: every case replayed through the checked and unchecked variants with one and with three targets per call "
-        "(knot hits compared bit-exactly, others within 2^-40 of the ordinate scale), +-1 ulp neighbours of knots must lie "
-        "between the neighbouring ordinates, unsorted abscissae and mismatched lengths must be rejected. "
-        "Case class = (family, mode, position of the target: left-oob/first-knot/inside/inner-knot/last-knot/right-oob).")
+RULE = ("P1: for every strictly increasing integer knot vector with 2..N knots over 0..XMax (quick N=3, XMax=4; "
+        "thorough N=5, XMax=6), two ordinate patterns, every target on the half-integer grid from below the first to "
+        "above the last knot plus thirds, and all three modes, TLC checks ICode (scan capped at n-1, separate right "
+        "test, dispatch, convex combination) = ISpec (knot exactness, bracketing segment, per-side out-of-range "
+        "handling), plus Inv_Knot and Inv_Between; families 'wide' (neighbouring gaps 1, 2^10, 2^20) and 'many' (50 and"
+        " 200 knots) likewise. P1 also: invariance under rescaling the abscissa axis; P2 (every second case again with "
+        "knots and target times 2^-70 and 2^45): every case replayed through the checked and unchecked variants with "
+        "one and with three targets per call (knot hits compared bit-exactly, others within 2^-40 of the ordinate "
+        "scale), +-1 ulp neighbours of knots must lie between the neighbouring ordinates, unsorted abscissae and "
+        "mismatched lengths must be rejected. Case class = (family, mode, position of the target: left-oob/first-"
+        "knot/inside/inner-knot/last-knot/right-oob).")
 ASSUMPTIONS = ["rational knots/ordinates/targets (exact in f64); equal neighbouring abscissae are outside the property's domain",
                "no P3: the function is stateless and the exhaustive case analysis already covers every branch; random traces would add nothing the spec does not enumerate"]
 EXHAUSTIVE = True
